@@ -58,6 +58,7 @@ type target struct {
 	Calls  map[string]string // callee source text (e.g. "calculateStartTime") -> Gallina function (another target), args passed positionally
 	Inline []string          // same-package functions whose bodies are inlined at their call sites (arguments must be the
 	// caller's variables of the same names)
+	Ctors map[string]ctor // constructors of *base.TokenResult: the result becomes a (tag, value) pair (ext_hotspot.go)
 }
 
 var targets = []target{
@@ -542,8 +543,8 @@ func (x *tr) expr(e ast.Expr) val {
 		if id, ok := e.X.(*ast.Ident); ok {
 			if t, ok := x.vars[id.Name]; ok && (strings.HasPrefix(t, "ptr:") || strings.HasPrefix(t, "struct:")) {
 				sn := t[strings.Index(t, ":")+1:]
-				if fs, ok := x.p.structs[sn]; ok {
-					if ft, ok := fs[e.Sel.Name]; ok {
+				if _, ok := x.p.structs[sn]; ok {
+					if ft, ok := x.lookupField(sn, e.Sel.Name); ok {
 						ty := x.typeOfExpr(ft)
 						if !isBasic(ty) {
 							fail("field %s.%s has non-scalar type %s (add a hint)", sn, e.Sel.Name, ty)
@@ -566,6 +567,9 @@ func (x *tr) expr(e ast.Expr) val {
 					return val{coq: "(" + strconv.FormatInt(c.val, 10) + ")%Z", typ: y.underlying(c.typ)}
 				}
 			}
+		}
+		if v, ok := x.selectorExt(s); ok {
+			return v
 		}
 		fail("selector %s (add a hint)", s)
 	case *ast.UnaryExpr:
@@ -809,6 +813,9 @@ func (x *tr) call(e *ast.CallExpr) val {
 		v := x.coerce(x.expr(e.Args[0]), "float64")
 		return val{coq: "(negb (PrimFloat.eqb " + v.coq + " " + v.coq + "))", typ: "bool"}
 	}
+	if v, ok := x.callExt(fn, e); ok {
+		return v
+	}
 	fail("call %s (add a hint)", src(x.p.fset, e))
 	return val{}
 }
@@ -825,6 +832,8 @@ func (x *tr) zero(t string) string {
 		return "false"
 	case t == "error":
 		return "0%Z"
+	case t == "tokres":
+		return "(0%Z, 0%Z)"
 	}
 	fail("zero value of %s", t)
 	return ""
@@ -948,6 +957,9 @@ func (x *tr) inline(ce *ast.CallExpr) (val, bool) {
 	if src(x.p.fset, callee.Type.Results.List[0].Type) == "error" {
 		rt = "error"
 	}
+	if x.isTokres(callee.Type.Results.List[0].Type) {
+		rt = "tokres"
+	}
 	y.resTypes = []string{rt}
 	return val{coq: "(" + pre + y.exec(callee.Body.List, nil) + ")", typ: rt}, true
 }
@@ -1004,6 +1016,8 @@ func (x *tr) exec(stmts []ast.Stmt, rest [][]ast.Stmt) string {
 			}
 			if x.resTypes[i] == "error" {
 				vs = append(vs, x.errVal(r))
+			} else if x.resTypes[i] == "tokres" {
+				vs = append(vs, x.tokresVal(r))
 			} else {
 				vs = append(vs, x.coerce(x.expr(r), x.resTypes[i]).coq)
 			}
@@ -1014,7 +1028,12 @@ func (x *tr) exec(stmts []ast.Stmt, rest [][]ast.Stmt) string {
 			return x.exec(tail, rest)
 		}
 		fail("statement %s", src(x.p.fset, s))
+	case *ast.IncDecStmt:
+		return x.exec(append([]ast.Stmt{desugarIncDec(s)}, tail...), rest)
 	case *ast.AssignStmt:
+		if out, ok := x.commaOk(s, tail, rest); ok {
+			return out
+		}
 		if len(s.Lhs) != 1 || len(s.Rhs) != 1 {
 			fail("multi-assignment %s", src(x.p.fset, s))
 		}
@@ -1030,6 +1049,10 @@ func (x *tr) exec(stmts []ast.Stmt, rest [][]ast.Stmt) string {
 			return x.exec(tail, rest)
 		}
 		if bl, ok := s.Rhs[0].(*ast.BasicLit); ok && bl.Kind == token.STRING && s.Tok == token.DEFINE {
+			x.vars[id.Name] = "string"
+			return x.exec(tail, rest)
+		}
+		if x.isMessageExpr(s.Rhs[0]) && s.Tok == token.DEFINE {
 			x.vars[id.Name] = "string"
 			return x.exec(tail, rest)
 		}
@@ -1220,6 +1243,8 @@ func coqType(t string) string {
 		return "float"
 	case t == "bool":
 		return "bool"
+	case t == "tokres":
+		return "(Z * Z)"
 	}
 	return "?"
 }
@@ -1282,6 +1307,9 @@ func translate(root *rootT, t target) (def string, info outFn) {
 		ty := x.typeOfExpr(f.Type)
 		if st := src(p.fset, f.Type); st == "error" || st == "*base.TokenResult" {
 			ty = "error" // 0 = nil, non-zero = a non-nil value
+		}
+		if x.isTokres(f.Type) {
+			ty = "tokres" // (tag, value): see ext_hotspot.go
 		}
 		if len(f.Names) == 0 {
 			x.resTypes = append(x.resTypes, ty)
